@@ -205,7 +205,7 @@ func TestVerif_C02_h2recv(t *testing.T) {
 		t.Fatalf("listen: %v", err)
 	}
 	defer ln.Close()
-	n := verifh.N(700, 20000)
+	n := verifh.N(700, 8000)
 	lens := []int{0, 1, 2, 5, 100, 4095, 4096, 4097, 16383, 16384, 16385}
 	stalls := 0
 	for c := 0; c < n; c++ {
